@@ -59,9 +59,14 @@ void t2(void) { enq(1); deq(1); }
 void t1(void) { enq(0); enq(1); int a = deq(0); int b = deq(1); int c = deq(2); rt_gset(59, (a == 0 && b == 1 && c == H_NONE) ? 4 : 9); }
 #define NDQ 3
 #endif
+#if SCEN == 4     /* one thread leaves a user node queued: destroy must refuse (head = a user node that is the last node), then drain */
+void t1(void) { enq(0); enq(1); int a = deq(0); rt_gset(59, a == 0 ? 4 : 9); }
+#define NDQ 1
+#endif
 void epilogue(void) {
   int left = 0; for (int i = 0; i < H_NN; i++) if (h_istarted(i) && !h_removed(i)) left = 1;
   if (left) rt_assert(destroy_seq() != 0, "destroy refuses a non-empty queue");
+  rt_cover(left, "destroy was attempted on a non-empty queue");
   for (int k = 0; k < H_NN + 1; k++) { int v = deq_seq(NDQ + k); if (v == H_NONE) break; rt_assert(k < H_NN, "queue drains"); }
   h_check_basic(); h_check_conservation(); h_check_fifo(); h_check_empty_answers();
   /* grace period over: run the deferred callbacks (frees the retired dummies exactly once) */
@@ -75,6 +80,9 @@ void epilogue(void) {
 #endif
 #if SCEN == 3
   rt_assert(rt_gget(59) == 4, "single thread: enqueue a, b; dequeue returns a, b, then NULL");
+#endif
+#if SCEN == 4
+  rt_assert(rt_gget(59) == 4, "single thread: enqueue a, b; dequeue returns a");
 #endif
   rt_assert(destroy_seq() == 0, "destroy succeeds on an empty queue");
   rt_assert(rt_gget(61) == (1u << rt_gget(63)) - 1, "every dummy node ever allocated has been freed exactly once (retired ones by their callback, the last by destroy)");
